@@ -116,12 +116,12 @@ PLAN = {
     "C08": dict(quick=dict(emit=["tok1", "switch1", "pair", "pairx"], model=["orders"], cap=8000, nconc=3,
                            paths=["content"]),
                 thorough=dict(emit=["tok1", "switch1", "pair", "pairx", "triple", "triplep"], model=["orders"],
-                              cap=30000, nconc=6, paths=["content", "content", "file", "provider", "fileprovider"])),
+                              cap=45000, nconc=6, paths=["content", "content", "file", "provider", "fileprovider"])),
     "C09": dict(quick=dict(emit=["hist2", "hist2x"], model=[], cap=8000, nconc=2, paths=["content"]),
-                thorough=dict(emit=["hist2", "hist2x", "hist3ip", "hist3host", "hist3mac"], model=[], cap=40000,
+                thorough=dict(emit=["hist2", "hist2x", "hist3ip", "hist3host", "hist3mac"], model=[], cap=50000,
                               nconc=3, paths=["content", "content", "provider", "file"])),
     "C10": dict(quick=dict(emit=["runs3", "runs2sp"], model=["ordruns"], cap=700, seeds=16),
-                thorough=dict(emit=["runs3", "runs2sp", "runs2x2", "runs4"], model=["ordruns"], cap=2000, seeds=64)),
+                thorough=dict(emit=["runs3", "runs2sp", "runs2x2", "runs4"], model=["ordruns"], cap=5000, seeds=64)),
 }
 
 ASSUMPTIONS = [
